@@ -109,7 +109,23 @@ def hygiene():
     return nfiles, bad
 
 
+def gen_coqproject():
+    """_CoqProject lists every theories/**/*.v (regenerated, so adding a file needs no shared edit)."""
+    files = []
+    for root, _, fs in os.walk(os.path.join(COQ, "theories")):
+        for f in fs:
+            if f.endswith(".v"):
+                files.append(os.path.relpath(os.path.join(root, f), COQ))
+    files.sort()
+    txt = ("-Q theories FV\n-arg -w -arg -notation-overridden,-deprecated-hint-without-locality,"
+           "-deprecated-instance-without-locality\n" + "\n".join(files) + "\n")
+    proj = os.path.join(COQ, "_CoqProject")
+    if not os.path.exists(proj) or open(proj).read() != txt:
+        open(proj, "w").write(txt)
+
+
 def coq_makefile():
+    gen_coqproject()
     mk = os.path.join(COQ, "Makefile")
     proj = os.path.join(COQ, "_CoqProject")
     if not os.path.exists(mk) or os.path.getmtime(mk) < os.path.getmtime(proj):
@@ -177,12 +193,12 @@ def audit(pid, module, theorems, workdir, extra_allow=()):
     return res
 
 
-def harness_build(profile="dev", timeout=3000):
-    cmd = ["cargo", "build", "--offline"]
+def harness_build(binname, profile="dev", timeout=3000):
+    cmd = ["cargo", "build", "--offline", "--bin", binname]
     if profile == "release":
         cmd.append("--release")
     rc, out = sh(cmd, cwd=HARNESS, timeout=timeout)
-    binp = os.path.join(HARNESS, "target", "release" if profile == "release" else "debug", "vh")
+    binp = os.path.join(HARNESS, "target", "release" if profile == "release" else "debug", binname)
     return rc, out, binp
 
 
@@ -389,7 +405,7 @@ def run_standard(P, tier, seed):
     cases = []
     if P.get("harness_args"):
         profile = P.get("profile", "dev")
-        rc, out, binp = harness_build(profile)
+        rc, out, binp = harness_build(P.get("bin", pid.lower()), profile)
         if rc != 0:
             R.violation("harness-build", "harness does not build against /repo working tree "
                         "(correspondence cannot be checked): " + out[-600:],
